@@ -253,6 +253,25 @@ func factsSender() {
 		}
 	}
 	natFact(g, "seqWriteSites", sites, "statements in internal/multiplex that assign writingFrame or writingFrame.Seq")
+	// writingFrame.Closing is set in one place (closeStream, to closingStream) and never reset
+	clSites, clToStream := 0, 0
+	for _, fn := range pkgs[mx].funcs {
+		for _, e := range events(fn) {
+			if a, ok := e.node.(*ast.AssignStmt); ok && e.kind == "assign" {
+				for i, l := range a.Lhs {
+					if regexp.MustCompile(`\.writingFrame\.Closing$`).MatchString(show(l)) {
+						clSites++
+						if i < len(a.Rhs) && show(a.Rhs[i]) == "closingStream" {
+							clToStream++
+						}
+					}
+				}
+			}
+		}
+	}
+	natFact(g, "closingWriteSites", clSites, "statements in internal/multiplex that assign writingFrame.Closing")
+	natFact(g, "closingSetToStream", clToStream, "…of which assign closingStream")
+	intFactExpr(g, "closingInit", mx, compositeField(fnOf(mx, "makeStream"), `^Frame$`, "Closing"), "makeStream: writingFrame literal Closing")
 	// obfuscate only reads f.Seq
 	if of := fnOf(mx, "Obfuscator.obfuscate"); of != nil {
 		n := 0
